@@ -60,6 +60,42 @@ func run(n int) string {
 	}
 	l, _ := svc2.GetListener()
 	l.Close()
+	return late(n)
+}
+
+// late: timeout T = 400 ms; a short connection arrives at 0.7 T and is closed at once. The period must be measured from
+// that connection: at 1.4 T the service must still be serving (it would have stopped at 1.0 T if the period had been measured
+// from the start), and it must stop by 1.7 T plus slack.
+func late(n int) string {
+	const T = 400 * time.Millisecond
+	svc, _ := varlink.NewService("v", "p", "1", "u")
+	name := fmt.Sprintf("@vrf-clock-late-%d-%d", os.Getpid(), n)
+	done := make(chan error, 1)
+	start := time.Now()
+	go func() { done <- svc.Listen(context.Background(), "unix:"+name, T) }()
+	time.Sleep(time.Until(start.Add(7 * T / 10)))
+	c, err := net.Dial("unix", name)
+	if err != nil {
+		svc.Shutdown()
+		return "late: could not connect at 0.7 T: " + err.Error()
+	}
+	c.Close()
+	arrived := time.Now()
+	select {
+	case e := <-done:
+		return fmt.Sprintf("late: the service stopped %v after its last new connection, the timeout is %v (%v)", time.Since(arrived).Round(time.Millisecond), T, e)
+	case <-time.After(time.Until(start.Add(14 * T / 10))):
+	}
+	select {
+	case e := <-done:
+		var te varlink.ServiceTimeoutError
+		if !errors.As(e, &te) {
+			return fmt.Sprintf("late: expected the timeout error, got %v", e)
+		}
+	case <-time.After(2 * time.Second):
+		svc.Shutdown()
+		return "late: service did not time out within 2 s after the last connection"
+	}
 	return "ok"
 }
 
